@@ -7,6 +7,7 @@ import DelbModel.Lemmas.Create.Tree
 import DelbModel.Lemmas.Create.NewNode
 import DelbModel.Lemmas.Create.Main
 import DelbModel.Lemmas.Create.Untouched
+import DelbModel.Lemmas.Create.Minimal
 /-!
 # C15 helper lemmas
 
@@ -18,6 +19,8 @@ import DelbModel.Lemmas.Create.Untouched
 * `Create/NewNode.lean` — the node built for a step passes the step's tests (`stepB_new`)
 * `Create/Main.lean` — the loop invariant (`createSteps_selected`)
 * `Create/Untouched.lean` — only nodes with fresh identities are added (`fetchOrCreate_untouched`)
+* `Create/Minimal.lean` — what is added is one chain below the deepest match, one node per missing step
+  (`createSteps_shape`, `fetchOrCreate_branch`)
 * this file — the up-front prefix check makes `stepPrefixesBound` derivable (`stepPrefixesBound_of_checked`)
 -/
 namespace Delb.XPath
